@@ -448,4 +448,324 @@ Section Canonical.
     split; [exact En|]. split; [exact Ey|]. split; [exact El|].
     intros Em. unfold L1D.loss. rewrite Em, El, HGs, HGt. reflexivity.
   Qed.
+
+  (* ================= vector outputs of one length k ================= *)
+  Notation lle := (lle ltb).
+  Notation BInvV := (@BInvV num sub mul div ltb eqb zero one is_nan L P).
+  Notation VFull := (@VFull num sub mul div ltb eqb zero one is_nan L P).
+  Notation DVec := (@DVec num).
+  Notation vector_op := (@vector_op num).
+  Notation is_yv := (@is_yv num).
+  Notation nanmin := (L1D.nanmin ltb is_nan).
+  Notation nanmax := (L1D.nanmax ltb is_nan).
+  Notation map2 := (@L1D.map2 num).
+
+  Definition canon_op_v (k : nat) (s : st) (o : op num) : bool :=
+    match o with
+    | Tell _ y => is_yv k y
+    | TellMany xys force =>
+        forallb (fun xy => is_yv k (snd xy)) xys &&
+        (negb (batch_path s xys force) || some_data xys (data s))
+    | _ => true
+    end.
+
+  Fixpoint clegal_v (k : nat) (s : st) (h : list (op num)) : bool :=
+    match h with
+    | [] => true
+    | o :: h' => legal_op s o && canon_op_v k s o && clegal_v k (fst (step s o)) h'
+    end.
+
+  Lemma canon_v_vector k s o : canon_op_v k s o = true -> vector_op k o = true.
+  Proof.
+    destruct o as [x y|x|xys force| |n c]; cbn; try reflexivity; [auto|].
+    intros H. apply andb_true_iff in H as [H _]. exact H.
+  Qed.
+
+  Lemma clegal_v_legal k h : forall s, clegal_v k s h = true -> legal s h = true /\ forallb (vector_op k) h = true.
+  Proof.
+    induction h as [|o h IH]; intros s H; [split; reflexivity|].
+    cbn [clegal_v] in H. apply andb_true_iff in H as [H H3]. apply andb_true_iff in H as [H1 H2].
+    destruct (IH _ H3) as [I1 I2]. cbn [L1DBatch.legal forallb]. rewrite H1, I1, I2, (canon_v_vector _ _ _ H2). split; reflexivity.
+  Qed.
+
+  (* ---- componentwise lemmas ---- *)
+  Lemma lle_nth a : forall b j, lle a b -> j < length a -> le (nth j a zero) (nth j b zero).
+  Proof.
+    induction a as [|x a IH]; intros b j H Hj; [cbn in Hj; lia|].
+    inversion H as [|? y ? b' Hxy Hab]; subst. destruct j as [|j]; cbn [nth]; [exact Hxy|].
+    apply IH; [exact Hab|cbn in Hj; lia].
+  Qed.
+
+  Lemma nth_lle a : forall b, length a = length b ->
+    (forall j, j < length a -> le (nth j a zero) (nth j b zero)) -> lle a b.
+  Proof.
+    induction a as [|x a IH]; intros [|y b] Hl H; cbn in Hl; try discriminate; [constructor|].
+    constructor; [exact (H 0 (Nat.lt_0_succ _))|].
+    apply IH; [congruence|]. intros j Hj. apply (H (S j)). cbn. lia.
+  Qed.
+
+  Lemma nth_map2 (f : num -> num -> num) a : forall b j, length a = length b -> j < length a ->
+    nth j (map2 f a b) zero = f (nth j a zero) (nth j b zero).
+  Proof.
+    induction a as [|x a IH]; intros [|y b] j Hl Hj; cbn in Hl, Hj; try discriminate; [lia|].
+    destruct j as [|j]; cbn [L1D.map2 nth]; [reflexivity|]. apply IH; [congruence|lia].
+  Qed.
+
+  Definition MMV (k : nat) (d : list (num * Y num)) (b0 b1 : list num) : Prop :=
+    length b0 = k /\ length b1 = k /\
+    (forall x vs, In (x, YV vs) d -> lle b0 vs /\ lle vs b1) /\
+    (forall j, j < k -> exists x vs, In (x, YV vs) d /\ nth j vs zero = nth j b0 zero) /\
+    (forall j, j < k -> exists x vs, In (x, YV vs) d /\ nth j vs zero = nth j b1 zero).
+
+  Definition MInvV (k : nat) (s : st) : Prop :=
+    (data s = [] /\ (forall a b, bby s <> (YV a, YV b)) /\ sy s = zero) \/
+    (exists b0 b1, bby s = (YV b0, YV b1) /\ data s <> [] /\ MMV k (data s) b0 b1).
+
+  Lemma minvv_fields k (s s' : st) : data s' = data s -> bby s' = bby s -> sy s' = sy s -> MInvV k s -> MInvV k s'.
+  Proof. intros E1 E2 E3 H. unfold MInvV in *. rewrite E1, E2, E3. exact H. Qed.
+
+  Lemma MMV_unique k d b0 b1 c0 c1 : MMV k d b0 b1 -> MMV k d c0 c1 -> b0 = c0 /\ b1 = c1.
+  Proof.
+    intros [Lb0 [Lb1 [B [B0 B1]]]] [Lc0 [Lc1 [C [C0 C1]]]].
+    split; apply (nth_ext _ _ zero zero); try congruence; intros j Hj; apply (le_antisym OL).
+    - rewrite Lb0 in Hj. destruct (C0 j Hj) as [x [vs [Hin <-]]]. apply lle_nth; [exact (proj1 (B _ _ Hin))|lia].
+    - rewrite Lb0 in Hj. destruct (B0 j Hj) as [x [vs [Hin <-]]]. apply lle_nth; [exact (proj1 (C _ _ Hin))|lia].
+    - rewrite Lb1 in Hj. destruct (B1 j Hj) as [x [vs [Hin <-]]].
+      apply lle_nth; [exact (proj2 (C _ _ Hin))|]. rewrite (lle_length (proj2 (C _ _ Hin))). lia.
+    - rewrite Lb1 in Hj. destruct (C1 j Hj) as [x [vs [Hin <-]]].
+      apply lle_nth; [exact (proj2 (B _ _ Hin))|]. rewrite (lle_length (proj2 (B _ _ Hin))). lia.
+  Qed.
+
+  Lemma tell_minvv k (s : st) x vs : length vs = k -> SInv s -> VInv s -> in_bounds x = true ->
+    MInvV k s -> MInvV k (tell s x (YV vs)).
+  Proof.
+    intros Hk HI HV Hb HM.
+    destruct (dget x (data s)) as [w|] eqn:Hd.
+    { unfold L1D.tell. rewrite Hd. exact HM. }
+    pose proof (@tell_values_gen num add sub mul div ltb eqb zero one inf neg_inf is_nan is_inf round12 L P OL
+                  (ScaleOK mul ltb P s) s x (YV vs) HI (v_box HV) (v_sx HV) Hb Hd (v_vals HV)) as HT.
+    cbn zeta in HT. destruct HT as [T1 [_ [T3 _]]].
+    assert (Hne' : data (tell s x (YV vs)) <> []) by (rewrite T3; apply dset_nonempty).
+    right. destruct HM as [[He [Hnv _]]|[b0 [b1 [Hby [_ [Lb0 [Lb1 [HB [H0 H1]]]]]]]]].
+    - destruct (@update_scale_first_vector num sub ltb zero inf neg_inf is_nan s x vs Hnv) as [Eby _].
+      rewrite Eby in T1. exists vs, vs. split; [exact T1|]. split; [exact Hne'|]. rewrite T3, He. cbn [L1D.dset].
+      split; [exact Hk|]. split; [exact Hk|]. split; [|split; intros j Hj; exists x, vs; (split; [left; reflexivity|reflexivity])].
+      intros z w [Hin|[]]. inversion Hin; subst. split; apply (lle_refl OL).
+    - destruct (@update_scale_vector num sub ltb zero inf neg_inf is_nan s x vs _ _ Hby) as [Eby _].
+      rewrite Eby in T1.
+      assert (Hl0 : length b0 = length vs) by congruence. assert (Hl1 : length b1 = length vs) by congruence.
+      destruct (map2_nanmin_le is_nan OL NoNaN b0 vs Hl0) as [A0 A0v]. destruct (map2_nanmax_ge is_nan OL NoNaN b1 vs Hl1) as [A1 A1v].
+      eexists _, _. split; [exact T1|]. split; [exact Hne'|]. rewrite T3.
+      split; [rewrite map2_length; congruence|]. split; [rewrite map2_length; congruence|]. split; [|split].
+      + intros z w Hin. apply (dset_In_inv) in Hin as [Hin|Hin].
+        * inversion Hin; subst. split; assumption.
+        * destruct (HB _ _ Hin) as [C1 C2]. split; [exact (lle_trans OL A0 C1)|exact (lle_trans OL C2 A1)].
+      + intros j Hj. rewrite (@nth_map2 _ b0 vs j Hl0) by lia. rewrite (nanmin_pmin ltb is_nan NoNaN). unfold L1D.pmin.
+        destruct (ltb (nth j vs zero) (nth j b0 zero)).
+        * exists x, vs. split; [apply dset_In_new|reflexivity].
+        * destruct (H0 j Hj) as [x0 [v0 [Hin E]]]. exists x0, v0. split; [apply dset_In_old; assumption|exact E].
+      + intros j Hj. rewrite (@nth_map2 _ b1 vs j Hl1) by lia. rewrite (nanmax_pmax ltb is_nan NoNaN). unfold L1D.pmax.
+        destruct (ltb (nth j b1 zero) (nth j vs zero)).
+        * exists x, vs. split; [apply dset_In_new|reflexivity].
+        * destruct (H1 j Hj) as [x0 [v0 [Hin E]]]. exists x0, v0. split; [apply dset_In_old; assumption|exact E].
+  Qed.
+
+  (* ---- the batch rebuild, componentwise ---- *)
+  Lemma col_fold_nth k (f : num -> num -> num) (ys : list (Y num)) j : forall acc, length acc = k -> j < k ->
+    (forall y, In y ys -> exists vs, y = YV vs /\ length vs = k) ->
+    nth j (fold_left (fun acc y' => map2 f acc (L1D.y_components y')) ys acc) zero =
+    fold_left f (map (fun y => nth j (L1D.y_components y) zero) ys) (nth j acc zero).
+  Proof.
+    induction ys as [|y ys IH]; intros acc Hl Hj Hall; cbn [fold_left map]; [reflexivity|].
+    destruct (Hall y (or_introl eq_refl)) as [vs [-> Hvs]]. cbn [L1D.y_components].
+    rewrite IH; [|rewrite map2_length; congruence|exact Hj|intros y Hy; apply Hall; right; exact Hy].
+    rewrite nth_map2 by (try congruence; lia). reflexivity.
+  Qed.
+
+  Lemma dvec_values k (d : list (num * Y num)) : DVec k d ->
+    forall y, In y (map snd d) -> exists vs, y = YV vs /\ length vs = k.
+  Proof. intros HD y Hy. apply in_map_iff in Hy as [[x y'] [<- Hin]]. exact (HD _ _ Hin). Qed.
+
+  Lemma batch_minvv k (s : st) (xys : list (num * Y num)) :
+    let r := tell_many_batch s xys in
+    DVec k (data r) -> data r <> [] -> MInvV k r.
+  Proof.
+    cbn zeta. intros Hds Hne.
+    destruct (batch_fields add sub mul div ltb eqb zero one inf is_nan is_inf round12 L P s xys) as [F1 [F2 _]]. cbn zeta in F1, F2.
+    set (r := tell_many_batch s xys) in *. rewrite <- F1 in F2.
+    pose proof (dvec_values Hds) as Hall.
+    destruct (data r) as [|[x0 y0] d0] eqn:Ed; [congruence|].
+    destruct (Hds x0 y0 (or_introl eq_refl)) as [v0 [-> Hv0]].
+    cbn [map snd L1D.wrap_like L1D.col_fold] in F2. change (L1D.y_components (YV v0)) with v0 in F2.
+    right. rewrite Ed. eexists _, _. split; [exact F2|]. split; [discriminate|].
+    assert (Hall' : forall y, In y (map snd d0) -> exists vs, y = YV vs /\ length vs = k)
+      by (intros y Hy; apply Hall; right; exact Hy).
+    assert (Hmem : forall vs, In (YV vs) (map snd ((x0, YV v0) :: d0)) <-> exists x, In (x, YV vs) ((x0, YV v0) :: d0)).
+    { intros vs. split.
+      - intros Hy. apply in_map_iff in Hy as [[x y] [Hy Hin]]. cbn [snd] in Hy. subst y. exists x. exact Hin.
+      - intros [x Hin]. apply in_map_iff. exists (x, YV vs). auto. }
+    set (mn := fold_left (fun acc y' => map2 (L1D.np_min2 ltb is_nan) acc (L1D.y_components y')) (map snd d0) v0).
+    set (mx := fold_left (fun acc y' => map2 (L1D.np_max2 ltb is_nan) acc (L1D.y_components y')) (map snd d0) v0).
+    assert (Lmn : length mn = k).
+    { pose proof (@col_fold_length num k (L1D.np_min2 ltb is_nan) (map snd ((x0, YV v0) :: d0)) Hall) as H. apply H. discriminate. }
+    assert (Lmx : length mx = k).
+    { pose proof (@col_fold_length num k (L1D.np_max2 ltb is_nan) (map snd ((x0, YV v0) :: d0)) Hall) as H. apply H. discriminate. }
+    assert (Hn : forall j, j < k -> nth j mn zero =
+              fold_left (L1D.np_min2 ltb is_nan) (map (fun y => nth j (L1D.y_components y) zero) (map snd d0)) (nth j v0 zero))
+      by (intros j Hj; unfold mn; rewrite (col_fold_nth (k := k)); auto).
+    assert (Hx : forall j, j < k -> nth j mx zero =
+              fold_left (L1D.np_max2 ltb is_nan) (map (fun y => nth j (L1D.y_components y) zero) (map snd d0)) (nth j v0 zero))
+      by (intros j Hj; unfold mx; rewrite (col_fold_nth (k := k)); auto).
+    (* every data vector, componentwise, is in the list the fold ran over *)
+    assert (Hin_j : forall x vs j, In (x, YV vs) ((x0, YV v0) :: d0) ->
+              In (nth j vs zero) (nth j v0 zero :: map (fun y => nth j (L1D.y_components y) zero) (map snd d0))).
+    { intros x vs j [Hin|Hin]; [inversion Hin; left; reflexivity|right].
+      apply in_map_iff. exists (YV vs). split; [reflexivity|]. apply in_map_iff. exists (x, YV vs). auto. }
+    assert (Hout_j : forall j w, In w (nth j v0 zero :: map (fun y => nth j (L1D.y_components y) zero) (map snd d0)) ->
+              exists x vs, In (x, YV vs) ((x0, YV v0) :: d0) /\ nth j vs zero = w).
+    { intros j w [<-|Hw]; [exists x0, v0; split; [left; reflexivity|reflexivity]|].
+      apply in_map_iff in Hw as [y [<- Hy]]. apply in_map_iff in Hy as [[x y'] [<- Hin]]. cbn [snd].
+      destruct (Hds x y' (or_intror Hin)) as [vs [-> _]]. exists x, vs. split; [right; exact Hin|reflexivity]. }
+    split; [exact Lmn|]. split; [exact Lmx|]. split; [|split].
+    - intros x vs Hin. destruct (Hds _ _ Hin) as [vs' [E Hl]]. inversion E; subst vs'. split.
+      + apply nth_lle; [congruence|]. intros j Hj. rewrite Lmn in Hj. rewrite (Hn j Hj).
+        apply (proj2 (fold_min_spec _ _)). eapply Hin_j; eauto.
+      + apply nth_lle; [congruence|]. intros j Hj. rewrite Hl in Hj. rewrite (Hx j Hj).
+        apply (proj2 (fold_max_spec _ _)). eapply Hin_j; eauto.
+    - intros j Hj. rewrite (Hn j Hj). destruct (Hout_j j _ (proj1 (fold_min_spec _ _))) as [x [vs [Hin E]]]. eauto.
+    - intros j Hj. rewrite (Hx j Hj). destruct (Hout_j j _ (proj1 (fold_max_spec _ _))) as [x [vs [Hin E]]]. eauto.
+  Qed.
+
+  (* ---- the combined invariant ---- *)
+  Definition VCFull (k : nat) (s : st) : Prop :=
+    VFull k s /\ KInv s /\ MInvV k s /\ mgrx s = sub (hi P) (lo P).
+
+  Lemma vcfull_init k : VCFull k init.
+  Proof.
+    split; [apply (vfull_init add sub mul div ltb eqb zero one inf neg_inf is_nan is_inf round12 L P)|].
+    split; [reflexivity|]. split; [left; cbn; repeat split; intros; discriminate|reflexivity].
+  Qed.
+
+  Lemma tell_vcfull k (s : st) x vs : VCFull k s -> in_bounds x = true -> length vs = k ->
+    VCFull k (tell s x (YV vs)).
+  Proof.
+    intros [HB [HK [HM HG]]] Hb Hk.
+    assert (Hv : vector_op k (Tell x (YV vs)) = true) by (cbn; apply Nat.eqb_eq; exact Hk).
+    pose proof (@step_binvv num add sub mul div ltb eqb zero one inf neg_inf is_nan is_inf round12 of_nat L P OL k s
+                  (Tell x (YV vs)) NoNaN HB Hb Hv) as HB'. cbn [L1D.step fst] in HB'.
+    destruct HB as [[HI [HD HV]] HBi].
+    split; [exact HB'|]. split; [|split; [apply tell_minvv; assumption|rewrite mgrx_tell; exact HG]].
+    unfold KInv. destruct (dget x (data s)) as [w|] eqn:Hd.
+    - rewrite (tell_known sub mul div ltb eqb zero one inf neg_inf is_nan is_inf round12 L P s x (YV vs) Hd). exact HK.
+    - rewrite (nb_tell add sub mul div zero one inf neg_inf is_nan is_inf round12 L P OL x (YV vs) HI Hb Hd).
+      rewrite (data_tell add sub mul div zero one inf neg_inf is_nan is_inf round12 L P OL x (YV vs) HI Hb Hd).
+      rewrite dkeys_dset by exact Hd. rewrite HK. reflexivity.
+  Qed.
+
+  Lemma tell_pending_vcfull k (s : st) x : VCFull k s -> VCFull k (tell_pending s x).
+  Proof.
+    intros [HB [HK [HM HG]]].
+    pose proof (@step_binvv num add sub mul div ltb eqb zero one inf neg_inf is_nan is_inf round12 of_nat L P OL k s
+                  (TellPending x) NoNaN HB eq_refl eq_refl) as HB'. cbn [L1D.step fst] in HB'.
+    split; [exact HB'|].
+    unfold L1D.tell_pending in *. destruct (dget x (data s)); [repeat split; assumption|].
+    set (s1 := L1D.mk _ _ _ _ _ _ _ _ _ _ _ _) in *.
+    destruct (update_losses_false_frame add sub mul div ltb eqb zero one inf is_nan is_inf round12 L P s1 x)
+      as [F1 [F2 [F3 [F4 F5]]]].
+    split; [unfold KInv; rewrite F3, F1; exact HK|].
+    split; [|rewrite mgrx_update_losses; exact HG].
+    eapply minvv_fields; [..|exact HM].
+    - rewrite F1. reflexivity.
+    - rewrite (update_losses_bby add sub mul div ltb eqb zero one inf is_nan is_inf round12 L P). reflexivity.
+    - rewrite (update_losses_sy add sub mul div ltb eqb zero one inf is_nan is_inf round12 L P). reflexivity.
+  Qed.
+
+  Lemma step_vcfull k (s : st) o : VCFull k s -> legal_op s o = true -> canon_op_v k s o = true ->
+    VCFull k (fst (step s o)).
+  Proof.
+    intros HC Hl Hc.
+    destruct o as [x y|x|xys force| |n c].
+    - cbn [L1D.step fst L1DBatch.legal_op canon_op_v] in *. destruct y as [v|vs]; [discriminate|].
+      cbn [L1DBatch.is_yv] in Hc. apply Nat.eqb_eq in Hc. apply tell_vcfull; assumption.
+    - cbn [L1D.step fst]. apply tell_pending_vcfull. exact HC.
+    - pose proof HC as [HB [HK [HM HG]]].
+      pose proof (@step_binvv num add sub mul div ltb eqb zero one inf neg_inf is_nan is_inf round12 of_nat L P OL k s
+                    (TellMany xys force) NoNaN HB Hl (canon_v_vector _ _ _ Hc)) as HB'.
+      cbn [L1D.step fst L1DBatch.legal_op canon_op_v] in *. unfold batch_path in Hc. unfold L1D.tell_many in *.
+      apply andb_true_iff in Hc as [Hbd Hne].
+      destruct (negb force && negb ((length (data s) <? 2 * length xys) && (2 <? length xys))) eqn:Ec.
+      + clear Ec Hne HB' HB HK HM HG. revert s HC Hl.
+        induction xys as [|[x y] xys IH]; intros s HC Hl; cbn [fold_left]; [exact HC|].
+        cbn [forallb fst snd] in Hl, Hbd. apply andb_true_iff in Hl as [Hl1 Hl2]. apply andb_true_iff in Hbd as [Hb1 Hb2].
+        destruct y as [v|vs]; [discriminate|]. cbn [fst snd L1DBatch.is_yv] in *. apply Nat.eqb_eq in Hb1.
+        apply IH; [exact Hb2|apply tell_vcfull; assumption|exact Hl2].
+      + cbn [negb orb] in Hne.
+        destruct HB as [[HI [HD HV]] HBi].
+        destruct (batch_inv add sub mul div zero one inf is_nan is_inf round12 of_nat L P OL xys HI HD) as [R1 [R2 [R3 [R4 R5]]]].
+        destruct (batch_fields add sub mul div ltb eqb zero one inf is_nan is_inf round12 L P s xys) as [F1 [F2 [F3 [F4 F5]]]].
+        cbn zeta in *. set (r := tell_many_batch s xys) in *.
+        split; [exact HB'|]. split; [unfold KInv, L1DBatch.dkeys; rewrite F4, F1; reflexivity|]. split.
+        * apply batch_minvv.
+          -- destruct HB' as [_ [Hds _]]. exact Hds.
+          -- fold r. rewrite F1. apply fold_dset_nonempty. exact Hne.
+        * rewrite F5, R5. unfold L1DBatch.box_ok in Hl. apply andb_true_iff in Hl as [B1 B2].
+          apply (eqb_eq OL) in B1, B2. rewrite B1, B2. reflexivity.
+    - cbn [L1D.step fst]. destruct HC as [HB [HK [HM HG]]].
+      pose proof (@step_binvv num add sub mul div ltb eqb zero one inf neg_inf is_nan is_inf round12 of_nat L P OL k s
+                    RemoveUnfinished NoNaN HB eq_refl eq_refl) as HB'. cbn [L1D.step fst] in HB'.
+      split; [exact HB'|]. split; [exact HK|]. split; [|exact HG].
+      eapply minvv_fields; [..|exact HM]; reflexivity.
+    - cbn [L1D.step]. unfold L1D.ask. cbn [fst]. destruct c; [|exact HC].
+      generalize (fst (L1D.ask_points add sub mul div ltb eqb zero inf is_nan is_inf round12 of_nat P s n)).
+      intros pts. clear Hl Hc. revert s HC. induction pts as [|p pts IH]; intros s HC; cbn [fold_left]; [exact HC|].
+      apply IH. apply tell_pending_vcfull. exact HC.
+  Qed.
+
+  Theorem vcfull_inv k h : forall (s : st), VCFull k s -> clegal_v k s h = true -> VCFull k (run s h).
+  Proof.
+    induction h as [|o h IH]; intros s HC Hl; [exact HC|].
+    change (run s (o :: h)) with (run (fst (step s o)) h).
+    cbn [clegal_v] in Hl. apply andb_true_iff in Hl as [Hl H3]. apply andb_true_iff in Hl as [H1 H2].
+    apply IH; [apply step_vcfull; assumption|exact H3].
+  Qed.
+
+  Theorem losses_function_of_data_v : SubLaws sub ltb zero -> (forall x, mul (factor P) x = x) ->
+    forall k h1 h2, clegal_v k init h1 = true -> clegal_v k init h2 = true ->
+    let s := run init h1 in let t := run init h2 in
+    data s = data t ->
+    nb s = nb t /\ sy s = sy t /\ los s = los t /\
+    (missing_bounds s = missing_bounds t -> loss s true = loss t true).
+  Proof.
+    intros SL Hone k h1 h2 Hl1 Hl2 s t Ed.
+    destruct (@vcfull_inv k h1 init (vcfull_init k) Hl1) as [[[HIs [_ HVs]] [_ [_ HBs]]] [HKs [HMs HGs]]].
+    destruct (@vcfull_inv k h2 init (vcfull_init k) Hl2) as [[[HIt [_ HVt]] [_ [_ HBt]]] [HKt [HMt HGt]]].
+    fold s in HIs, HVs, HBs, HKs, HMs, HGs. fold t in HIt, HVt, HBt, HKt, HMt, HGt.
+    destruct (clegal_v_legal _ _ _ Hl1) as [L1 S1]. destruct (clegal_v_legal _ _ _ Hl2) as [L2 S2].
+    pose proof (fun iv => @factor1_exact_v num add sub mul div ltb eqb zero one inf neg_inf is_nan is_inf round12 of_nat L P OL NoNaN SL Hone k h1 L1 S1 iv) as X1.
+    pose proof (fun iv => @factor1_exact_v num add sub mul div ltb eqb zero one inf neg_inf is_nan is_inf round12 of_nat L P OL NoNaN SL Hone k h2 L2 S2 iv) as X2.
+    cbn zeta in X1, X2. fold s in X1. fold t in X2.
+    assert (En : nb s = nb t) by (unfold KInv in *; rewrite HKs, HKt, Ed; reflexivity).
+    assert (Ey : sy s = sy t).
+    { destruct HMs as [[E1 [_ Z1]]|[b0 [b1 [Y1 [N1 M1]]]]]; destruct HMt as [[E2 [_ Z2]]|[e0 [e1 [Y2 [N2 M2]]]]].
+      - rewrite Z1, Z2. reflexivity.
+      - exfalso. apply N2. rewrite <- Ed. exact E1.
+      - exfalso. apply N1. rewrite Ed. exact E2.
+      - rewrite Ed in M1. destruct (MMV_unique M1 M2) as [-> ->].
+        destruct HBs as [[Q _]|[c0 [c1 [ob1 [Y1' [_ [_ [Q _]]]]]]]]; [contradiction|].
+        destruct HBt as [[R _]|[d0 [d1 [ob2 [Y2' [_ [_ [R _]]]]]]]]; [contradiction|].
+        rewrite Y1 in Y1'. rewrite Y2 in Y2'. inversion Y1'; inversion Y2'; subst. rewrite Q, R. reflexivity. }
+    assert (Ex : sx s = sx t) by (rewrite (v_sx HVs), (v_sx HVt); reflexivity).
+    assert (El : los s = los t).
+    { apply (ksorted_ext OL); [exact (s_los_sorted HIs)|exact (s_los_sorted HIt)|].
+      intros iv. destruct (In_dec_ival OL iv (keys (los s))) as [Hin|Hnin].
+      - assert (Hin' : In iv (keys (los t))) by (apply (s_los_keys HIt); rewrite <- En; apply (s_los_keys HIs); exact Hin).
+        rewrite (X1 iv Hin), (X2 iv Hin'). f_equal.
+        change (loss_of sub div ltb eqb zero one L P (nb s) (data s) (sx s) (sy s) (fst iv) (snd iv) =
+                loss_of sub div ltb eqb zero one L P (nb t) (data t) (sx t) (sy t) (fst iv) (snd iv)).
+        rewrite En, Ed, Ex, Ey. reflexivity.
+      - assert (Hnin' : ~ In iv (keys (los t))) by (intros H; apply Hnin; apply (s_los_keys HIs); rewrite En; apply (s_los_keys HIt); exact H).
+        apply (lget_None OL) in Hnin. apply (lget_None OL) in Hnin'. rewrite Hnin, Hnin'. reflexivity. }
+    split; [exact En|]. split; [exact Ey|]. split; [exact El|].
+    intros Em. unfold L1D.loss. rewrite Em, El, HGs, HGt. reflexivity.
+  Qed.
 End Canonical.
